@@ -6,6 +6,7 @@ import Heathcliff.Proofs.C01O
 import Heathcliff.Proofs.C01J
 import Heathcliff.Proofs.C01V
 import Heathcliff.Proofs.C01X
+import Heathcliff.Proofs.C01Y
 import Heathcliff.Proofs.GenScalingSpec
 
 /- Property theorems only (statements verbatim; proofs are the helper lemmas of Heathcliff/Proofs). -/
@@ -535,5 +536,37 @@ theorem drv_ckks_encrypt_decrypt_seeded : type_of% @HC.drv_ckks_encrypt_decrypt_
 
 /-- when flag + seed do not fit into one polynomial the seeded call IS the unseeded one -/
 theorem encryptZeroSym_seed_fallback : type_of% @HC.encryptZeroSym_seed_fallback := @HC.encryptZeroSym_seed_fallback
+
+/-! ### THE TAPE FROM THE GENERATORS (Proofs/C01Y; concrete instance: Proofs/C01YW): the ranges of the drawn polynomials that `DrvMode`
+    asks for are THEOREMS about the samplers of the generator model (Model/Rng.lean, specs C16B), for every byte-valued XOF, every
+    generator state and every integer sampler within its range contract (`Rng.randUniform`: `randUniform_contract`) -/
+
+/-- `sample::ternary` at a level's moduli returns `rnsOfInt` of a ternary polynomial -/
+theorem ternary_tape : type_of% @HC.ternary_tape := @HC.ternary_tape
+
+/-- `sample::centered_binomial` returns `rnsOfInt` of a polynomial with ‖e‖∞ ≤ 21 -/
+theorem cbd_tape : type_of% @HC.cbd_tape := @HC.cbd_tape
+
+/-- `sample::uniform` returns a canonical polynomial -/
+theorem uniform_tape : type_of% @HC.uniform_tape := @HC.uniform_tape
+
+/-- `sample::centered_binomial` is total (no rejection loop): every generator state yields an error polynomial -/
+theorem centeredBinomial_total : type_of% @HC.centeredBinomial_total := @HC.centeredBinomial_total
+theorem noiseMany_total2 : type_of% @HC.noiseMany_total2 := @HC.noiseMany_total2
+
+/-- the draws of `Rng.asymCore` (draw order of `asymmetric_with_u_prng`) at the level's parameters are an admissible public-key mode -/
+theorem drvMode_pk_of_prng : type_of% @HC.drvMode_pk_of_prng := @HC.drvMode_pk_of_prng
+
+/-- … at the PREVIOUS level's parameters: admissible mode through the previous level (special-prime path, lower levels) -/
+theorem drvMode_pkPrev_of_prng : type_of% @HC.drvMode_pkPrev_of_prng := @HC.drvMode_pkPrev_of_prng
+
+/-- the draws of `Rng.symCore` (draw order of `symmetric_with_c1_prng`) are an admissible secret-key mode, and the public seed the c1
+    generator delivered expands to the mask (`SeedExpands`: the hypothesis of the seed-compressed theorems) -/
+theorem drvMode_sk_of_prng : type_of% @HC.drvMode_sk_of_prng := @HC.drvMode_sk_of_prng
+
+/-- END TO END FROM THE GENERATOR STATES: BFV through the special prime / lower level; BGV secret key; CKKS head of the chain -/
+theorem drv_bfv_encrypt_decrypt_prng_sp : type_of% @HC.drv_bfv_encrypt_decrypt_prng_sp := @HC.drv_bfv_encrypt_decrypt_prng_sp
+theorem drv_bgv_encrypt_decrypt_prng_sk : type_of% @HC.drv_bgv_encrypt_decrypt_prng_sk := @HC.drv_bgv_encrypt_decrypt_prng_sk
+theorem drv_ckks_encrypt_decrypt_prng_pk : type_of% @HC.drv_ckks_encrypt_decrypt_prng_pk := @HC.drv_ckks_encrypt_decrypt_prng_pk
 
 end HC.C01
